@@ -17,6 +17,12 @@ use std::panic::{catch_unwind, AssertUnwindSafe};
 
 #[path = "c16_script.rs"]
 mod script;
+#[path = "c16_shape.rs"]
+mod shape;
+
+/// the model's shape table (`Grammar.shapeRows table / luaTable`, `familyRows`), generated from the Lean
+/// model by tools/gen_c16_shapes.py and compared with the live model on every run (SH / FA ops)
+const MODEL_SHAPES: &str = include_str!("c16_shapes.txt");
 
 // ---------------------------------------------------------------------------------------------
 // canonical printer of a `Command` (constructor + flattened fields; mirrors `Grammar.Cmd`)
@@ -1606,6 +1612,132 @@ fn source_enumeration(cx: &mut Ctx) {
     }));
 }
 
+fn unhex(h: &str) -> String {
+    let b: Vec<u8> = (1..h.len()).step_by(2).filter_map(|i| u8::from_str_radix(h.get(i..i + 2)?, 16).ok()).collect();
+    String::from_utf8_lossy(&b).to_string()
+}
+
+/// a field value with its hex texts decoded, for replay files
+fn readable(v: &str) -> String {
+    let mut out = String::new();
+    let mut rest = v;
+    while let Some(i) = rest.find('x') {
+        let tail = &rest[i + 1..];
+        let n = tail.bytes().take_while(|c| c.is_ascii_hexdigit() && !c.is_ascii_uppercase()).count();
+        let boundary_ok = i == 0 || !rest.as_bytes()[i - 1].is_ascii_alphanumeric();
+        if boundary_ok && n >= 2 && n % 2 == 0 {
+            out.push_str(&rest[..i]);
+            out.push_str(&format!("{:?}", unhex(&rest[i..i + 1 + n])));
+            rest = &rest[i + 1 + n..];
+        } else {
+            out.push_str(&rest[..i + 1]);
+            rest = tail;
+        }
+    }
+    out.push_str(rest);
+    out
+}
+
+/// shape descriptors translated from the match arms of the three grammars, against each other and against
+/// the model's shape table
+fn shape_check(cx: &mut Ctx) {
+    // (0) the embedded copy of the model's table is the live model's table
+    let mut model: BTreeMap<&str, Vec<shape::Row>> = BTreeMap::new();
+    for (tag, op) in [("R", "SH R"), ("L", "SH L"), ("F", "FA")] {
+        let lines: Vec<&str> = MODEL_SHAPES.lines().filter(|l| l.starts_with(tag) && l.as_bytes().get(1) == Some(&b' ')).map(|l| &l[2..]).collect();
+        for (i, l) in lines.iter().enumerate() {
+            cx.out.op(format!("{} {}", op, i), l.to_string());
+        }
+        cx.out.op(format!("{} {}", op, lines.len()), "end".to_string());
+        model.insert(tag, lines.iter().map(|l| shape::parse_row(l)).collect());
+    }
+    let dir = repo_dir();
+    let read = |rel: &str| std::fs::read_to_string(format!("{}/{}", dir, rel)).unwrap_or_default();
+    let sim = shape::extract(&read("src/redis/parser.rs"), "from_resp", shape::Style::Resp);
+    let zc = shape::extract(&read("src/redis/commands.rs"), "from_resp_zero_copy", shape::Style::Resp);
+    let lua = shape::extract(&read("src/redis/executor/script_ops.rs"), "parse_lua_command_bytes", shape::Style::Lua);
+    if sim.rows.len() < 100 || zc.rows.len() < 100 || lua.rows.len() < 30 || sim.families.len() < 5 {
+        cx.out.violation("C16:source:shape-scan-failed", "the match arms of the three grammars could not be translated into shape descriptors (layout changed?): the shape table is no longer compared with the source",
+            json!({"repo": dir, "from_resp_rows": sim.rows.len(), "zero_copy_rows": zc.rows.len(), "translator_rows": lua.rows.len(), "families": sim.families.len(), "problems": [sim.problems, zc.problems, lua.problems]}));
+        return;
+    }
+    let by_name = |rows: &[shape::Row]| -> BTreeMap<String, shape::Row> { rows.iter().map(|r| (r.get("name").cloned().unwrap_or_default(), r.clone())).collect() };
+    let mut unrecognised: BTreeSet<String> = BTreeSet::new();
+    let mut compared = 0u64;
+    // (i) the two RESP parsers, every field (also the source-only ones: all literals, compared words, conditions)
+    let (a, b) = (by_name(&sim.rows), by_name(&zc.rows));
+    for n in a.keys().chain(b.keys()).collect::<BTreeSet<_>>() {
+        match (a.get(n), b.get(n)) {
+            (Some(x), Some(y)) => {
+                for (f, vx) in x {
+                    let vy = y.get(f).cloned().unwrap_or_default();
+                    compared += 1;
+                    if *vx != vy {
+                        cx.out.violation(&format!("C16:source:parsers-shape-differs:{}:{}", n, f), "the match arms of from_resp and from_resp_zero_copy for this command translate to different shape descriptors",
+                            json!({"command": n, "field": f, "from_resp": readable(vx), "from_resp_zero_copy": readable(&vy)}));
+                    }
+                }
+            }
+            _ => cx.out.violation(&format!("C16:source:parsers-shape-differs:{}:row", n), "a command (or sub-command) arm exists in one RESP parser only", json!({"command": n, "in_from_resp": a.contains_key(n), "in_from_resp_zero_copy": b.contains_key(n)})),
+        }
+    }
+    let (fa, fb) = (by_name(&sim.families), by_name(&zc.families));
+    if fa != fb {
+        cx.out.violation("C16:source:parsers-shape-differs:families", "the sub-command families of from_resp and from_resp_zero_copy differ (names, text of a missing sub-command, answer to an unknown sub-command)", json!({"from_resp": fa, "from_resp_zero_copy": fb}));
+    }
+    // (ii) source against the model's shape table
+    const FIELDS: &[&str] = &["arity", "aerr", "ctor", "slots", "opt", "tail", "opts", "unk", "flits"];
+    for (grammar, src, tag) in [("resp", &sim, "R"), ("lua", &lua, "L")] {
+        let s = by_name(&src.rows);
+        let m = by_name(&model[tag]);
+        for n in s.keys().chain(m.keys()).collect::<BTreeSet<_>>() {
+            match (s.get(n), m.get(n)) {
+                (Some(x), Some(y)) => {
+                    for f in FIELDS {
+                        let (vx, vy) = (x.get(*f).cloned().unwrap_or_default(), y.get(*f).cloned().unwrap_or_default());
+                        if vx.contains('?') {
+                            unrecognised.insert(format!("{}:{}:{}", grammar, n, f));
+                            continue;
+                        }
+                        compared += 1;
+                        if !shape::field_eq(f, &vx, &vy) {
+                            cx.out.violation(&format!("C16:source:shape:{}:{}:{}", grammar, n, f), "the shape descriptor translated from the command's match arm differs from the row of the model's shape table (which is proved to be the model grammar: parse_is_generic)",
+                                json!({"grammar": grammar, "command": n, "field": f, "source": readable(&vx), "model": readable(&vy), "source_row": x, "model_row": y}));
+                        }
+                    }
+                }
+                _ => cx.out.violation(&format!("C16:source:shape:{}:{}:row", grammar, n), "a command (or sub-command) arm of the source has no row in the model's shape table, or the reverse", json!({"grammar": grammar, "command": n, "in_source": s.contains_key(n), "in_model": m.contains_key(n)})),
+            }
+        }
+    }
+    let mf = by_name(&model["F"]);
+    for n in fa.keys().chain(mf.keys()).collect::<BTreeSet<_>>() {
+        match (fa.get(n), mf.get(n)) {
+            (Some(x), Some(y)) => {
+                for f in ["aerr", "probe"] {
+                    let (vx, vy) = (x.get(f).cloned().unwrap_or_default(), y.get(f).cloned().unwrap_or_default());
+                    if vx.contains('?') { unrecognised.insert(format!("resp:{}:{}", n, f)); continue; }
+                    compared += 1;
+                    if vx != vy {
+                        cx.out.violation(&format!("C16:source:shape:resp:{}:family-{}", n, f), "the family arm of the source differs from the model's family entry (text of a missing sub-command / answer to an unknown sub-command)",
+                            json!({"family": n, "field": f, "source": readable(&vx), "model": readable(&vy)}));
+                    }
+                }
+            }
+            _ => cx.out.violation(&format!("C16:source:shape:resp:{}:family-row", n), "a sub-command family exists in the source only or in the model only", json!({"family": n, "in_source": fa.contains_key(n), "in_model": mf.contains_key(n)})),
+        }
+    }
+    cx.out.count_n("shape:fields-compared", compared);
+    cx.out.count_n("shape:fields-unrecognised", unrecognised.len() as u64);
+    cx.out.extra.insert("shape".into(), json!({
+        "repo": dir, "from_resp_rows": sim.rows.len(), "zero_copy_rows": zc.rows.len(), "translator_rows": lua.rows.len(), "families": sim.families.len(),
+        "model_rows": {"resp": model["R"].len(), "lua": model["L"].len(), "families": model["F"].len()},
+        "fields_compared": compared,
+        "unrecognised": unrecognised,
+        "sample_rows": {"SET": a.get("SET"), "lua:ZADD": by_name(&lua.rows).get("ZADD"), "ACL.LOG": a.get("ACL.LOG")},
+    }));
+}
+
 /// the word with one ASCII letter group replaced by a non-ASCII character that upper-cases to it
 fn special_variants(w: &str) -> Vec<Vec<u8>> {
     let up = w.to_ascii_uppercase();
@@ -1963,6 +2095,7 @@ pub fn run(a: &Args) {
     lua_args(&mut cx);
     eval_plumbing(&mut cx);
     source_enumeration(&mut cx);
+    shape_check(&mut cx);
     unicode_keyword_sweep(&mut cx, &mut rng);
     effect_sweep(&mut cx);
     systematic(&mut cx, &mut rng);
